@@ -25,6 +25,8 @@ def section(text, pats):
 
 
 def main():
+    import tempfile
+    os.environ["VERIF_EVIDENCE_DIR"] = tempfile.mkdtemp(prefix="verif-ev.")
     only = sys.argv[1:]
     rows = []
     assert sh("git -C /repo status --porcelain").stdout.strip() == "", "/repo is not clean"
